@@ -23,8 +23,10 @@ class KGTimerHandler:
 
 def _call_periodic(loop: asyncio.BaseEventLoop, name, interval, callback):
     start = loop.time()
+    n = 1  # the loop handle held by the timer is armed for the boundary start + n * interval
 
     def run(handle, fn=callback):
+        nonlocal n
         try:
             r = fn()
         except BaseException:
@@ -38,7 +40,10 @@ def _call_periodic(loop: asyncio.BaseEventLoop, name, interval, callback):
             if interval == 0:
                 handle.delegate = loop.call_soon(run, handle)
             else:
-                handle.delegate = loop.call_later(interval - ((loop.time() - start) % interval), run, handle)
+                # next boundary after now, and always after the one just served: a wake-up that is
+                # early by less than the clock resolution must not arm the same boundary again
+                n = max(n + 1, int((loop.time() - start) // interval) + 1)
+                handle.delegate = loop.call_at(start + n * interval, run, handle)
         else:
             handle.cancel()
 
